@@ -820,6 +820,22 @@ fn round_blocking(rt: &tokio::runtime::Runtime, seed: u64, hb: &Heartbeat, tot: 
             Err(_) => v.push(("C17.any_timeout_value".into(), format!("{kind:?} with a huge timeout panicked in the calling thread: {:?}", PANICS.lock().unwrap().last()))),
         }
     }
+    // 5c. ... and a zero timeout is a call that may only succeed at once: Ok or Timeout, promptly, never a panic
+    for kind in [BKind::TellTo(0), BKind::AskTo(0), BKind::ErasedTell(Some(0)), BKind::ErasedAsk(Some(0))] {
+        let (a2, sh2) = (a.clone(), sh.clone());
+        let th = std::thread::spawn(move || send_blocking(&sh2, Ctx::Client(18), 0, &a2, kind, Body::plain(uid())));
+        *o.entry("C17.any_timeout_value").or_default() += 1;
+        match th.join() {
+            Ok((res, el)) => {
+                if !(res.is_ok() || res == Res::Timeout) {
+                    v.push(("C17.any_timeout_value".into(), format!("{kind:?} (zero timeout) on a responsive actor returned {res:?}")));
+                } else if el > Duration::from_secs(2) && hb.max_late_since(bucket0) <= STALL_US {
+                    v.push(("C17.deadline".into(), format!("{kind:?} (zero timeout) returned {res:?} only after {el:?}")));
+                }
+            }
+            Err(_) => v.push(("C17.any_timeout_value".into(), format!("{kind:?} with a zero timeout panicked in the calling thread: {:?}", PANICS.lock().unwrap().last()))),
+        }
+    }
     // 6. per-thread program order and reply integrity with mixed blocking calls
     let mut ths = vec![];
     for k in 0..3u64 {
